@@ -1,6 +1,6 @@
 package fiber
 
-// Replay of the counterexample to fiber.acceptsOfferType/post:same-type-any-case-accepted (property C09):
+// Replay of the counterexample to fiber.acceptsOfferType/post:plain-offer-covered-any-case-is-accepted (property C09):
 // media types are case-insensitive (RFC 9110 8.3.1), so the range Text/HTML accepts the offer text/html
 // (and the extension html). acceptsOfferType compares the range with the offer's type byte by byte.
 
